@@ -45,6 +45,7 @@ MODEL_FUNCS = {
     'save_point': dict(params={'x': 'vec', 'rvec': 'vec', 'nsamples': 'Z', 'eval_num': 'Z', 'x_in_abs_coords': 'B'},
                        defaults={'x_in_abs_coords': 'true'}, ret='B'),
     'get_final_results': dict(params={}, ret='tup:opt:vec|opt:vec|opt:T|opt:mat|opt:Z|opt:Z|opt:zvec'),
+    'build_full_model': dict(pure=True, params={}, ret='tup:vec|mat'),
 }
 
 # ---------------------------------------------------------------- controller.py
